@@ -12,6 +12,18 @@ CLAIMS = {
   "All 118 elements: symbol/number bijection, period, IUPAC group, main-group flag, Cordero radii, lookup defaults — proved by kernel evaluation (decide +kernel) over the whole finite domain on tables regenerated from /repo each run; hand-modelled lookup functions tied by exhaustive correspondence (Z=0..130, all symbols).",
   TB + "Hand-transcribed reference data (IUPAC symbols, Cordero 2008) is an oracle.",
   "Lean 4 proof by exhaustive kernel evaluation over regenerated tables + exhaustive model/code correspondence", "DESIGN.md §5 C20"),
+ "C01": ("proof",
+  "For every list of terms of the seven kinds (both UFF and RB are such lists), every configuration regular for each term, every atom and axis: the gradient (zeroed buffer + each term's translated add_gradient program at its own atoms) is the partial derivative of the summed energy — Mathlib HasDerivAt over the reals. That Forcefield::energy/gradient are exactly this sum/fold over the exported term list is checked bit for bit on generated molecules each run; the 1e-6 numerical clause is explored by finite differences on the real code.",
+  TB + "Modelled: Forcefield::energy/gradient as sum/fold (corresponded bitwise). Real-number reading of f64 code. Torsion proved off the atan2 branch cut.",
+  "Lean 4 proof (Mathlib real analysis) over gradient programs re-translated from the Rust source each run + bitwise model/code correspondence + finite-difference search", "DESIGN.md §5 C01"),
+ "C02": ("proof",
+  "For each of the 7 term kinds, all parameter values and all positions off the stated singular sets: the energy model equals the theory document's closed form (in independently written spec geometry), every one of the 6/9/12 translated gradient slots equals the exact derivative of that energy (per-slot identity tangent = gradient program, then HasDerivAt), and no other slot is written, for any index assignment inside a larger array. Gradient programs are re-translated from the Rust add_gradient bodies on every run and the proofs re-checked; the energy model and the translation are validated bit for bit against the Rust functions.",
+  TB + "Hand energy model tied bitwise to the Rust energy functions. Real-number reading of f64 code. Torsion proved off the atan2 branch cut; repulsion exponent a natural number.",
+  "Lean 4 proof (Mathlib: HasDerivAt, field_simp/ring identities per slot) over code re-translated each run + bitwise translation validation", "DESIGN.md §5 C02"),
+ "C09": ("proof",
+  "For every atom count, every distance predicate, every candidate order and every cap function: perceived bonds join distinct atoms within bonding distance, no pair twice, degree ≤ cap, and a pair within distance left unbonded has a saturated end (maximality); orders assignment keeps the pairs. Proved by loop invariants on the hand model of add_bonds/add_bond; the model (with candidate lists computed at f64 as the source does) is tied to the code by correspondence on crowded, tied, coincident and threshold geometries over all elements.",
+  TB + "Modelled: perception loops (corresponded). f64 distance predicate evaluated by the driver.",
+  "Lean 4 proof (fold invariants, monotonicity of degrees) + model/code correspondence", "DESIGN.md §5 C09"),
  "C10": ("proof",
   "For every atom count, every well-formed bond list and every enumeration order: angle keys = bonded paths i-j-k (i≠k), proper keys = bonded paths over four distinct atoms, one improper per three-neighbour centre, pairs partition into bonded / non-bonded; each once. Proved on the hand model of add_angles/add_dihedrals/add_non_bonded_pairs, which is tied to the code by exhaustive correspondence over all labelled graphs on ≤5 (quick) / ≤6 (thorough) atoms plus random graphs.",
   TB + "Modelled, not verified: the Rust loops themselves (tied by correspondence); HashSet = key-deduplicated list.",
